@@ -304,6 +304,35 @@ func (s *Server) Settle(max time.Duration) string {
 	}
 }
 
+// AttachServer builds clients for a server running in another process.
+func AttachServer(httpAddr, grpcAddr string) *Server {
+	s := &Server{HTTPURL: "http://" + httpAddr, GRPCAddr: grpcAddr}
+	s.HTTPClient = &http.Client{Transport: &http.Transport{MaxIdleConnsPerHost: 16, DisableCompression: true}, Timeout: 60 * time.Second}
+	if grpcAddr != "" {
+		conn, err := grpc.NewClient(grpcAddr, grpc.WithTransportCredentials(insecure.NewCredentials()),
+			grpc.WithDefaultCallOptions(grpc.MaxCallRecvMsgSize(64*MiB), grpc.MaxCallSendMsgSize(64*MiB)))
+		if err == nil {
+			s.Conn = conn
+			s.AC = pb.NewActionCacheClient(conn)
+			s.CAS = pb.NewContentAddressableStorageClient(conn)
+			s.BS = bs.NewByteStreamClient(conn)
+			s.Cap = pb.NewCapabilitiesClient(conn)
+			s.Asset = asset.NewFetchClient(conn)
+		}
+	}
+	return s
+}
+
+// CloseClient releases the client side of an attached server.
+func (s *Server) CloseClient() {
+	if s.Conn != nil {
+		_ = s.Conn.Close()
+	}
+	if s.HTTPClient != nil {
+		s.HTTPClient.CloseIdleConnections()
+	}
+}
+
 // Close stops servers and removes the directory if owned.
 func (s *Server) Close() {
 	if s.Conn != nil {
